@@ -389,6 +389,11 @@ def run_one(spec, sched=None, line_points=False):
         sched = RandomSched(spec) if kind == "random" else ExplicitSched(
             dict(spec, sched=spec.get("sched", {"steps": []})))
     k = sk.SimKernel(sched, T=T, scratch=SCRATCH)
+    if "pid_style" not in spec:
+        sd = spec.get("sched", {})
+        # seeded random schedules also vary the order in which the kernel hands out pids
+        spec["pid_style"] = ("asc", "desc", "wrap")[sd.get("seed", 0) % 3] if sd.get("kind") == "random" else "asc"
+    k.pid_style = spec["pid_style"]
     k.all_tmps = []
     _CUR.update(kernel=k, settings=settings, hups=[], nreload=0, applied=None)
     os.environ.pop("GUNICORN_PID", None)
@@ -447,7 +452,7 @@ def run_one(spec, sched=None, line_points=False):
            "prop": spec.get("prop", "ALL")}
     meta = {"end": end, "exc": exc, "status": status, "points": k.npoints,
             "applied": sched.applied, "log": arb.log.records[:8] if arb is not None else [],
-            "workers_final": sorted(arb.WORKERS.keys()) if arb is not None else [],
+            "workers_final": arb.WORKERS.ids() if arb is not None else [],
             "procs": {p.pid: p.st for p in k.procs.values()}}
     return {"cfg": cfg, "ev": k.events, "meta": meta}
 
@@ -534,14 +539,14 @@ class ReplaySched(BaseSched):
         st = self.beh[self.cur - 1][1]
         m = st["m"]
         arb = k.arb
-        got_w = set(arb.WORKERS.keys())
+        got_w = set(arb.WORKERS.ids())
         if got_w != _set(m["W"]):
             self.fail("WORKERS %s, model %s" % (sorted(got_w), sorted(_set(m["W"]))))
         if arb.num_workers != m["nw"]:
             self.fail("num_workers %s, model %s" % (arb.num_workers, m["nw"]))
         if len(arb.SIG_QUEUE) != len(m["sigq"]):
             self.fail("len(SIG_QUEUE) %s, model %s" % (len(arb.SIG_QUEUE), len(m["sigq"])))
-        ab = set(p for p, w in arb.WORKERS.items() if w.aborted)
+        ab = arb.WORKERS.aborted_ids()
         if ab != (_set(m["ab"]) & got_w):
             self.fail("aborted %s, model %s" % (sorted(ab), sorted(_set(m["ab"]) & got_w)))
         for i, s in enumerate(st["st"]):
